@@ -264,7 +264,7 @@ theorem chainOk_iff (g : Graph) (p : Params) : ∀ (path : RPath) (src : Nat),
       simp only [chainOk]
       constructor
       · intro hc
-        cases hl : lookup g h.scid src h.node with
+        cases hl : resolve g p src h with
         | none => simp [hl] at hc
         | some c =>
           simp only [hl, Bool.and_eq_true, decide_eq_true_eq, hopOk_iff] at hc
@@ -278,15 +278,15 @@ theorem chainOk_iff (g : Graph) (p : Params) : ∀ (path : RPath) (src : Nat),
       simp only [chainOk]
       constructor
       · intro hc
-        cases hl : lookup g h.scid src h.node with
+        cases hl : resolve g p src h with
         | none => simp [hl] at hc
         | some c =>
-          cases hl' : lookup g h'.scid h.node h'.node with
+          cases hl' : resolve g p h.node h' with
           | none => simp [hl, hl'] at hc
           | some c' =>
             simp only [hl, hl', Bool.and_eq_true, decide_eq_true_eq, hopOk_iff] at hc
             obtain ⟨⟨⟨hok, hfee⟩, hcl⟩, hrest⟩ := hc
-            cases hf : compute_fees (pathAmount (h' :: t')) c'.base c'.prop with
+            cases hf : compute_fees (pathAmount (h' :: t')) c'.feeBase c'.feeProp with
             | none => simp [hf] at hfee
             | some f =>
               simp only [hf, decide_eq_true_eq] at hfee
